@@ -348,10 +348,10 @@ class Body:
                     out = [t['t']]
                 elif k == 'switch':
                     out = [x[1] for x in t['targets']] + [t['otherwise']]
-                    d = t['d']
-                    if d['k'] == 'const' and d.get('v') is not None and 'name' not in d:
+                    cv = self._const_discr(t)
+                    if cv is not None:
                         # literal discriminant (e.g. cfg!(debug_assertions)): only one target is feasible
-                        hit = [x[1] for x in t['targets'] if x[0] == d['v']]
+                        hit = [x[1] for x in t['targets'] if x[0] == cv]
                         out = hit[:1] if hit else [t['otherwise']]
                 elif k in ('call', 'assert', 'drop', 'yield'):
                     if t.get('t') is not None:
@@ -371,6 +371,20 @@ class Body:
                 if tgt is not None:
                     self._succ[j] = [tgt]
         return self._succ[i]
+
+    def _const_discr(self, t):
+        """Literal value of a switch discriminant (`if false`, cfg!(debug_assertions)), else None."""
+        d = t['d']
+        if d['k'] == 'const':
+            return d.get('v') if ('name' not in d and d.get('v') is not None) else None
+        if d['k'] in ('copy', 'move') and not d['place']['p']:
+            ds = self.defs().get(d['place']['l'], [])
+            if len(ds) == 1 and ds[0][2] == 'assign':
+                rv = ds[0][3]
+                if rv['k'] == 'use' and rv['o']['k'] == 'const' and 'name' not in rv['o'] and rv['o'].get('v') is not None \
+                        and rv['o'].get('ty') == 'bool':
+                    return rv['o']['v']
+        return None
 
     def _thread_target(self, j):
         b = self.blocks[j]
@@ -421,7 +435,7 @@ class Body:
             if b['cleanup']:
                 continue
             t = b['term']
-            if t['k'] != 'switch' or (t['d']['k'] == 'const' and t['d'].get('v') is not None and 'name' not in t['d']):
+            if t['k'] != 'switch' or self._const_discr(t) is not None:
                 for o in self.succ(j):
                     es.append((j, o, None))
                 continue
